@@ -150,4 +150,11 @@ var checks = map[string]*Check{
 		Assumptions: commonAssumptions,
 		RealStub:    coreRealStub,
 	},
+	"C07": {
+		Legs:        []Leg{{World: "C07", Weight: 3}, {World: "C07fp", Weight: 3}, {World: "C07", Race: true, Weight: 2}, {World: "C07fp", Race: true, Weight: 1}},
+		Probes:      []string{"failures_among_healthy_requests", "backend_unreachable_502", "shim_enabled", "proxy_side_failures_among_healthy_requests"},
+		Rule:        "(real-proxy leg) 2..8 healthy concurrent requests next to 1..5 sabotaged ones: backend reset before headers / mid body, close mid chunk, garbage instead of HTTP, malformed header or chunk, hang then close, malformed shim input (open/data/poll/close) when the shim is on; then a window with every backend dial refused (client must get 502); then a probe. (fake-proxy leg) pending lists with 5xx / garbled JSON / HTML / > 1 MB replies between good ones, fetches rejected, truncated, garbage, without or with a bad start time, reset; uploads rejected or reset - each for chosen request IDs only; healthy IDs and a later probe must be served. Crash monitor and race-detector legs.",
+		Assumptions: commonAssumptions,
+		RealStub:    coreRealStub,
+	},
 }
